@@ -139,6 +139,12 @@ impl Shared {
         })
     }
 
+    /// Identifier of the ring in verification traces.
+    #[cfg(a10_verif)]
+    pub(crate) fn id(&self) -> u64 {
+        self.rfd.as_raw_fd() as u64
+    }
+
     /// Make a `io_uring_register(2)` system call.
     pub(crate) fn register(
         &self,
@@ -192,6 +198,22 @@ impl Shared {
             ptr::from_ref(&args).cast(),
             size_of::<libc::io_uring_getevents_arg>(),
         ));
+        #[cfg(a10_verif)]
+        {
+            let ret = match &result {
+                Ok(n) => i64::from(*n),
+                Err(err) => -i64::from(err.raw_os_error().unwrap_or(0)),
+            };
+            let fields = [
+                self.id(),
+                u64::from(submissions),
+                u64::from(min_complete),
+                u64::from(flags),
+                ret as u64,
+                u64::from(timeout.is_some()),
+            ];
+            crate::verif::emit("Enter", fields);
+        }
         match result {
             Ok(n) => {
                 self.wake_blocked_futures();
@@ -222,6 +244,12 @@ impl Shared {
         let mut wakers = take(&mut *blocked_futures);
         unlock(blocked_futures); // Unblock others.
         let awoken = min(available, wakers.len());
+        #[cfg(a10_verif)]
+        {
+            let fields = [self.id(), available as u64, wakers.len() as u64, awoken as u64, 0, 0];
+            crate::verif::emit("WakeBlocked", fields);
+            crate::verif::yield_point("wake_blocked.taken");
+        }
         for waker in wakers.drain(..awoken) {
             log::trace!(waker:?; "waking up future for submission");
             waker.wake();
@@ -232,6 +260,11 @@ impl Shared {
         swap(&mut *blocked_futures, &mut wakers);
         // Add back any wakers for which we don't have a slot.
         let awoken = min(available - awoken, wakers.len());
+        #[cfg(a10_verif)]
+        {
+            let fields = [self.id(), available as u64, wakers.len() as u64, awoken as u64, 0, 0];
+            crate::verif::emit("WakeBlockedReadd", fields);
+        }
         blocked_futures.extend(wakers.drain(wakers.len() - awoken..));
         unlock(blocked_futures); // Unblock others.
         for waker in wakers {
@@ -261,6 +294,8 @@ unsafe impl Sync for Shared {}
 
 impl Drop for Shared {
     fn drop(&mut self) {
+        #[cfg(a10_verif)]
+        crate::verif::emit("SharedDrop", [self.id(), 0, 0, 0, 0, 0]);
         let ptr = self.submissions.cast();
         let len = (self.submissions_len as usize) * size_of::<sq::Submission>();
         // NOTE: posioned in Shared::new.
@@ -278,6 +313,8 @@ impl Drop for Shared {
 }
 
 fn load_kernel_shared(ptr: ptr::NonNull<AtomicU32>) -> u32 {
+    #[cfg(a10_verif)]
+    crate::verif::yield_point("load_kernel_shared");
     // SAFETY: since the value is shared with the kernel we need to use Acquire
     // memory ordering.
     unsafe { (*ptr.as_ptr()).load(Ordering::Acquire) }
